@@ -17,14 +17,10 @@ struct Event {
 
 const PROTOS: [&str; 8] = ["arp", "eth", "ipv4", "ipv6", "icmpv4", "icmpv6", "tcp", "udp"];
 
+/// The statement does not fix the timestamp's format: any non-empty token (digits with a
+/// fraction, RFC 3339, ...) that cannot be confused with a separator is a timestamp.
 fn ts_ok(s: &str) -> bool {
-    let mut it = s.split('.');
-    match (it.next(), it.next(), it.next()) {
-        (Some(a), Some(b), None) => {
-            !a.is_empty() && !b.is_empty() && a.bytes().all(|c| c.is_ascii_digit()) && b.bytes().all(|c| c.is_ascii_digit())
-        }
-        _ => false,
-    }
+    !s.is_empty() && s.len() <= 64 && s.bytes().all(|c| c.is_ascii_graphic() && c != b'=' && c != b'"') && s.bytes().any(|c| c.is_ascii_digit())
 }
 
 fn parse_console(l: &str) -> Result<Event, String> {
